@@ -31,7 +31,7 @@ pub static DEF: PropDef = PropDef {
         "hosts own exactly one address; a router owns one address per attached subnet",
     ],
     may_exit_process: true,
-    watchdog_s: 300,
+    watchdog_s: 120,
     nt_floor: |t| t.pick(20, 300),
 };
 
@@ -302,7 +302,17 @@ fn scenario(env: &Env, k: u64, case: u64, rng: &mut rand::rngs::SmallRng, d: &mu
                 b.build()
             };
             let nets: Vec<_> = (0..n_sub_used).map(|_| mk()).collect();
-            let rec = Recorder::passive();
+            // circuit breaker: a forwarding loop that never ends must not eat the machine; everything after
+            // 20000 frames is dropped (the count alone already convicts it)
+            let mut seen_frames = 0u64;
+            let rec = Recorder::new(Box::new(move |_f: &FrameRec| {
+                seen_frames += 1;
+                if seen_frames > 20_000 {
+                    elvis_core::network::verif::Verdict::Drop
+                } else {
+                    elvis_core::network::verif::Verdict::PASS
+                }
+            }));
             for n in &nets {
                 n.set_verif_hook(rec.clone());
             }
@@ -402,7 +412,7 @@ fn scenario(env: &Env, k: u64, case: u64, rng: &mut rand::rngs::SmallRng, d: &mu
         d.saw("outcomes", why.to_string());
         let dst_ip = if g.ghost { subnet(g.dst.0) | 99 } else { host_ip(g.dst.0, g.dst.1) };
         let mut got: Vec<(u64, Hop, Ipv4Header, Vec<u8>)> = vec![];
-        for f in frames.iter().filter(|f| f.kind == Kind::Ipv4 && f.bytes.len() >= 32 && !f.dropped) {
+        for f in frames.iter().filter(|f| f.kind == Kind::Ipv4 && f.bytes.len() >= 32) {
             if f.bytes[28..32] == g.id.to_be_bytes() {
                 if let Ok(h) = Ipv4Header::from_bytes(f.bytes.iter().cloned()) {
                     let net = net_ids.iter().position(|x| *x == f.net_id).unwrap_or(999);
